@@ -306,6 +306,68 @@ def build_cases(chk, table=()):
                 k += 1
                 add("pair%d_dep" % k, {"main.incn": "import rust::%s\nfrom util import one\n\ndef main() -> None:\n    println(one())\n" % x,
                                        "util.incn": "import rust::%s\n\npub def one() -> int:\n    return 1\n" % y}, crates=[x, y])
+    # ---- ONE trigger per program, in every position of every repeated structure (decorator 1/2/3, decorator
+    #      argument 1/2/3, declaration 1/2/3, function vs method, nested statement positions, import 1/2/3)
+    others = ["Eq", "Hash", "PartialEq"]
+    for kw in ("model", "class"):
+        for ser in (("Serialize", "Deserialize") if chk.tier != "quick" or kw == "model" else ("Serialize",)):
+            for pos in range(3):
+                decs = [o for o in ("PartialEq", "Eq")]
+                decs.insert(pos, ser)
+                add("pos_dec_%s_%s_%d" % (kw, ser, pos), {"main.incn": "".join("@derive(%s)\n" % d for d in decs) + "%s P:\n    x: int\n\n" % kw + MAIN_PLAIN})
+                args = ["PartialEq", "Eq"]
+                args.insert(pos, ser)
+                add("pos_arg_%s_%s_%d" % (kw, ser, pos), {"main.incn": "@derive(%s)\n%s P:\n    x: int\n\n" % (", ".join(args), kw) + MAIN_PLAIN})
+                decls = ["@derive(PartialEq)\n%s M%d:\n    x: int\n\n" % (kw, j) for j in range(3)]
+                decls[pos] = "@derive(PartialEq)\n@derive(%s)\n%s M%d:\n    x: int\n\n" % (ser, kw, pos)
+                add("pos_decl_%s_%s_%d" % (kw, ser, pos), {"main.incn": "".join(decls) + MAIN_PLAIN})
+    J = "json_stringify(1)"
+    for pos in range(3):
+        fns = ["def f%d() -> str:\n    return \"a\"\n\n" % j for j in range(3)]
+        fns[pos] = "def f%d() -> str:\n    return %s\n\n" % (pos, J)
+        add("pos_fn_json_%d" % pos, {"main.incn": "".join(fns) + MAIN_PLAIN})
+        afn = ["def g%d() -> int:\n    return 1\n\n" % j for j in range(3)]
+        afn[pos] = "async def g%d() -> int:\n    return 1\n\n" % pos
+        add("pos_fn_async_%d" % pos, {"main.incn": "".join(afn) + MAIN_PLAIN})
+        ms = ["    def m%d(self) -> str:\n        return \"a\"\n" % j for j in range(3)]
+        ms[pos] = "    def m%d(self) -> str:\n        return %s\n" % (pos, J)
+        add("pos_method_json_model_%d" % pos, {"main.incn": "model M:\n    x: int\n" + "".join(ms) + "\n" + MAIN_PLAIN})
+        add("pos_method_json_class_%d" % pos, {"main.incn": "class M:\n    x: int\n" + "".join(ms) + "\n" + MAIN_PLAIN})
+        ams = ["    def m%d(self) -> int:\n        return 1\n" % j for j in range(3)]
+        ams[pos] = "    async def m%d(self) -> int:\n        return 1\n" % pos
+        add("pos_method_async_model_%d" % pos, {"main.incn": "model M:\n    x: int\n" + "".join(ams) + "\n" + MAIN_PLAIN})
+        add("pos_method_async_class_%d" % pos, {"main.incn": "class M:\n    x: int\n" + "".join(ams) + "\n" + MAIN_PLAIN})
+        imps = ["import rust::rand", "from rust::regex import Regex"]
+        imps.insert(pos, "from web import App")
+        add("pos_import_web_%d" % pos, {"main.incn": "\n".join(imps) + "\n\n" + MAIN_PLAIN})
+        hs = ["async def h%d() -> str:\n    return \"ok\"\n\n" % j for j in range(3)]
+        hs[pos] = "@route(\"/r%d\")\n" % pos + hs[pos]
+        add("pos_route_%d" % pos, {"main.incn": "from rust::rand import random\n\n" + "".join(hs) + MAIN_PLAIN})
+    add("pos_trait_json", {"main.incn": "trait Tr:\n    def show(self) -> str:\n        return %s\n\nmodel M with Tr:\n    x: int\n\ndef main() -> None:\n    m = M(x=1)\n    println(m.show())\n" % J})
+    add("pos_newtype_json", {"main.incn": "type N = newtype int:\n    def show(self) -> str:\n        return %s\n\n" % J + MAIN_PLAIN})
+    nest = {
+        "assign": "    s = {T}\n    println(s)\n", "return_fn": "    println(helper())\n", "if_cond": "    if {T} == \"1\":\n        println(1)\n",
+        "if_then": "    if c:\n        println({T})\n", "elif_cond": "    if c:\n        println(1)\n    elif {T} == \"1\":\n        println(2)\n",
+        "elif_body": "    if c:\n        println(1)\n    elif true:\n        println({T})\n", "else_body": "    if c:\n        println(1)\n    else:\n        println({T})\n",
+        "while_cond": "    while {T} == \"2\":\n        println(1)\n", "while_body": "    while c:\n        println({T})\n        break\n",
+        "for_body": "    for i in range(2):\n        println({T})\n", "fstring": "    println(f\"v={{{T}}}\")\n", "call_arg": "    println(len({T}))\n",
+        "list_item": "    xs = [{T}, \"b\"]\n    println(len(xs))\n", "binary": "    println({T} + \"x\")\n", "paren": "    println(({T}))\n",
+        "match_arm": "    match 1:\n        case 1:\n            println({T})\n        case _:\n            println(2)\n",
+        "method_recv": "    println({T}.upper())\n", "index": "    println({T}[0])\n", "compound": "    mut s = \"a\"\n    s += {T}\n    println(s)\n",
+    }
+    for nm, body in nest.items():
+        pre = "def helper() -> str:\n    return %s\n\n" % J if nm == "return_fn" else ""
+        add("pos_nest_json_%s" % nm, {"main.incn": pre + "def main() -> None:\n    c = false\n" + body.replace("{T}", J)})
+    for nm in (("assign", "if_then", "elif_body", "else_body", "while_body", "for_body", "match_arm", "call_arg", "binary") if chk.tier != "quick" else ("assign", "elif_body", "match_arm")):
+        body = nest[nm].replace("{T}", "str(await one())") if nm not in ("binary",) else nest[nm].replace("{T}", "str(await one())")
+        add("pos_nest_await_%s" % nm, {"main.incn": "async def one() -> int:\n    return 1\n\nasync def main() -> None:\n    c = false\n" + body})
+    for n in names:
+        add("pos_crate_%s" % n, {"main.incn": "import rust::%s\n\n" % n + MAIN_PLAIN}, crates=[n])
+    for i in range(0, len(names) - 2, 3):
+        for rot in (range(3) if chk.tier != "quick" else ()):
+            tri = names[i:i + 3]
+            tri = tri[rot:] + tri[:rot]
+            add("pos_crates3_%d_%d" % (i, rot), {"main.incn": "".join("import rust::%s\n" % n for n in tri) + "\n" + MAIN_PLAIN}, crates=tri)
     # the feature sits in the 1st / 2nd / 3rd of three imported modules (state carried across modules)
     for pos in range(3):
         for feat, body in (("serde", "pub def show(x: int) -> str:\n    return json_stringify(x)\n"), ("async", "pub async def slow() -> int:\n    return 2\n"),
